@@ -333,7 +333,8 @@ func (op FixedPoint) Op_instruction_verilog_extra_modules(arch *Arch, flavor str
 	}
 	result += "endmodule\n"
 
-	moduleNames := []string{moduleName}
+	_ = moduleName
+	moduleNames := []string{op.fpName} // the key is the module, not its kind: other opcodes emit an "adder" too
 	moduleCodes := []string{result}
 
 	return moduleNames, moduleCodes
